@@ -19,8 +19,15 @@ conditions that are visible in the shape of the pool allocator:
      size, and combines several call sites by ``MAX`` over all of them.
  R4  the driver allocates what was computed: the size handed to
      ``create_pool_allocator`` is the value returned by ``_determine_stack_size``.
+ R5  hoisting keeps callee dummies and caller actuals aligned: the analysis
+     fills two parallel lists per item -- ``to_hoist`` (what becomes a dummy of the
+     routine) and ``hoist_variables`` (what its callers pass) -- and they stay
+     parallel: both are initialised from the same variable list without filters
+     and every later mutation extends both with the same list; the
+     transformation appends the dummies from ``to_hoist`` and the actual arguments
+     from the successor's ``hoist_variables`` unfiltered and in order.
 Not decided: behavioural equivalence of hoisted / pool-allocated code, the size
-arithmetic of each array (dimension products, ``C_SIZEOF``), hoisting, and the other
+arithmetic of each array (dimension products, ``C_SIZEOF``), and the other
 stack transformations (raw stack, Fortran-pointer and direct-index variants).
 """
 import ast
@@ -215,9 +222,122 @@ def run(ctx):
     ok = bool(cp) and all(len(c.args) >= 2 and isinstance(c.args[1], ast.Name) and c.args[1].id in dn for c in cp)
     (ctx.judge('R4', 'driver allocates the determined size') if ok else
      ctx.violation('R4', 'transform_subroutine:driver-size', ts.where, 'create_pool_allocator is not given the result of _determine_stack_size'))
+    run_r5(ctx)
+
+
+HV = 'loki/transformations/temporaries/hoist_variables.py'
+
+
+def _key_of(t):
+    """'to_hoist' for a target/expr `....["to_hoist"]`"""
+    return t.slice.value if isinstance(t, ast.Subscript) and isinstance(t.slice, ast.Constant) and isinstance(t.slice.value, str) else None
+
+
+def run_r5(ctx):
+    m = ctx.model
+    ctx.rule('R5', 'hoisting: to_hoist (dummies) and hoist_variables (actuals) are initialised from one list without filters, extended together, and '
+                   'consumed unfiltered and in order on both sides')
+    A = m.get_class(HV, 'HoistVariablesAnalysis')
+    T = m.get_class(HV, 'HoistVariablesTransformation')
+    at, tt = A.function('transform_subroutine'), T.function('transform_subroutine')
+    if at is None or tt is None:
+        raise AnalysisError('HoistVariablesAnalysis / HoistVariablesTransformation.transform_subroutine vanished')
+    PAIR = ('to_hoist', 'hoist_variables')
+    init = {k: [] for k in PAIR}
+    ext = {k: [] for k in PAIR}
+    for a in ast.walk(at.node):
+        if isinstance(a, ast.Assign) and _key_of(a.targets[0]) in PAIR:
+            init[_key_of(a.targets[0])].append(a.value)
+        if isinstance(a, ast.AugAssign) and _key_of(a.target) in PAIR:
+            ext[_key_of(a.target)].append(a.value)
+        if isinstance(a, ast.Call) and isinstance(a.func, ast.Attribute) and a.func.attr in ('extend', 'append', 'insert') and _key_of(a.func.value) in PAIR:
+            ext[_key_of(a.func.value)].append(a.args[0] if len(a.args) == 1 else a)
+    # initialisation: non-empty initialisers come from the same source list
+    src = {}
+    for k in PAIR:
+        vals = [v for v in init[k] if not (isinstance(v, (ast.List, ast.Tuple)) and not v.elts)]
+        if len(vals) != 1:
+            raise AnalysisError(f'HoistVariablesAnalysis: expected one non-empty initialisation of "{k}", found {len(vals)}')
+        v = vals[0]
+        if isinstance(v, ast.Name):
+            src[k] = (v.id, False)
+        elif isinstance(v, (ast.ListComp, ast.GeneratorExp)) and len(v.generators) == 1 and isinstance(v.generators[0].iter, ast.Name):
+            src[k] = (v.generators[0].iter.id, bool(v.generators[0].ifs))
+        else:
+            raise AnalysisError(f'HoistVariablesAnalysis: initialisation of "{k}" (`{ast.unparse(v)[:60]}`) not recognised')
+    if src['to_hoist'][0] == src['hoist_variables'][0] and not src['to_hoist'][1] and not src['hoist_variables'][1]:
+        ctx.judge('R5', 'analysis: both lists initialised from the same variables', facts={'source': src['to_hoist'][0]})
+    else:
+        ctx.violation('R5', 'HoistVariablesAnalysis.transform_subroutine:initialisation', at.where,
+                      f'"to_hoist" is initialised from `{src["to_hoist"]}` and "hoist_variables" from `{src["hoist_variables"]}` (name, filtered): '
+                      f'the dummies added to the routine and the arguments its callers pass no longer correspond one to one')
+    e1, e2 = ([ast.unparse(x) for x in ext[k]] for k in PAIR)
+    if e1 == e2 and e1:
+        ctx.judge('R5', 'analysis: both lists extended together', facts={'with': e1})
+    else:
+        ctx.violation('R5', 'HoistVariablesAnalysis.transform_subroutine:extension', at.where,
+                      f'"to_hoist" is extended with {e1} but "hoist_variables" with {e2}: after the first successor the two lists are no longer parallel')
+    # transformation, callee side: routine.arguments += <comprehension over item ... ['to_hoist']> without filter
+    par = [a.arg for a in tt.node.args.args][1]
+    adds = [a for a in ast.walk(tt.node) if isinstance(a, ast.AugAssign) and ast.unparse(a.target) == f'{par}.arguments']
+    if len(adds) != 1:
+        raise AnalysisError('HoistVariablesTransformation: `routine.arguments += ...` not found')
+    av = adds[0].value
+    comp = av if isinstance(av, (ast.ListComp, ast.GeneratorExp)) else None
+    if isinstance(av, ast.Name):
+        defs = [a.value for a in ast.walk(tt.node) if isinstance(a, ast.Assign) and any(isinstance(t, ast.Name) and t.id == av.id for t in a.targets)]
+        comp = next((c for d in defs for c in ast.walk(d) if isinstance(c, (ast.ListComp, ast.GeneratorExp))), None)
+    ok = comp is not None and len(comp.generators) == 1 and not comp.generators[0].ifs and _key_of(comp.generators[0].iter) == 'to_hoist' \
+        and not any(isinstance(c, ast.Call) and X.call_name_of(c) in ('sorted', 'reversed', 'set') for c in ast.walk(comp))
+    (ctx.judge('R5', 'transformation: dummies appended from to_hoist, unfiltered, in order') if ok else
+     ctx.violation('R5', 'HoistVariablesTransformation.transform_subroutine:dummies', f'{HV}:{adds[0].lineno}',
+                   f'the dummies appended to the routine (`{ast.unparse(av)[:80]}`) are not the unfiltered, ordered "to_hoist" list'))
+    # caller side: the variables handed to the remapping callbacks come from the successor's hoist_variables
+    hv = [a for a in ast.walk(tt.node) if isinstance(a, ast.Assign) and isinstance(a.value, ast.Subscript) and _key_of(a.value) == 'hoist_variables'
+          and 'successor' in ast.unparse(a.value)]
+    if not hv:
+        raise AnalysisError("HoistVariablesTransformation: look-up of the successor's hoist_variables not found")
+    ctx.judge('R5', "transformation: actual arguments come from the successor's hoist_variables", nontrivial=False)
+    n = 0
+    subs = [c for mod in m.all_repo_modules(packages=('loki',)) for c in mod.classes.values() if T in m.mro(c)]
+    todo = []
+    for name in ('driver_call_argument_remapping', 'kernel_call_argument_remapping', 'kernel_inline_call_argument_remapping'):
+        if T.function(name) is None:
+            raise AnalysisError(f'HoistVariablesTransformation.{name} vanished')
+        todo += [(c, name, c.function(name)) for c in subs if c.function(name) is not None]
+    ctx.floor('R5', 'classes implementing the hoisting callbacks', len(subs), 2)
+    for cls_, name, f in todo:
+        name = f'{cls_.name}.{name}' if cls_ is not T else name
+        vpar = [a.arg for a in f.node.args.args][-1]
+        for c in ast.walk(f.node):
+            if isinstance(c, (ast.GeneratorExp, ast.ListComp)) and len(c.generators) == 1 and isinstance(c.generators[0].iter, ast.Name) \
+                    and c.generators[0].iter.id == vpar:
+                n += 1
+                inst = f'{name}:{ast.unparse(c)[:40]}'
+                if c.generators[0].ifs:
+                    ctx.violation('R5', f'HoistVariablesTransformation.{name}:filtered', f'{f.module.relpath}:{c.lineno}',
+                                  f'`{ast.unparse(c)}` filters the hoisted variables on the caller side while the callee received a dummy for '
+                                  f'every entry of its "to_hoist" list: positional arguments shift')
+                else:
+                    ctx.judge('R5', inst)
+        bad = [c for c in ast.walk(f.node) if isinstance(c, ast.Call) and X.call_name_of(c) in ('sorted', 'reversed', 'set')
+               and any(isinstance(x, ast.Name) and x.id == vpar for x in ast.walk(c))]
+        if bad:
+            ctx.violation('R5', f'HoistVariablesTransformation.{name}:reordered', f'{HV}:{bad[0].lineno}',
+                          f'`{ast.unparse(bad[0])}` re-orders the hoisted variables on the caller side')
+    ctx.floor('R5', 'caller-side argument constructions', n, 4)
 
 
 MUTANTS = [
+    Mutant('hoist-names-filtered', HV,
+           "            item.trafo_data[self._key][\"hoist_variables\"] = [var.clone(name=f'{routine.name}_{var.name}')\n                                                             for var in variables]",
+           "            item.trafo_data[self._key][\"hoist_variables\"] = [var.clone(name=f'{routine.name}_{var.name}')\n                                                             for var in variables if var.shape]",
+           expect=('R5', 'initialisation')),
+    Mutant('hoist-extend-one-list', HV, "            item.trafo_data[self._key][\"to_hoist\"].extend(hoist_variables)\n", "", expect=('R5', 'extension')),
+    Mutant('hoist-caller-skips-scalars', HV,
+           "        new_args = tuple(v.clone(dimensions=None) for v in variables)\n        return call.clone(arguments=call.arguments + new_args)\n\n    def kernel_call_argument_remapping",
+           "        new_args = tuple(v.clone(dimensions=None) for v in variables if isinstance(v, sym.Array))\n        return call.clone(arguments=call.arguments + new_args)\n\n    def kernel_call_argument_remapping",
+           expect=('R5', 'filtered')),
     Mutant('pointer-advances-unrounded', FILE,
            "        arr_size = ishift_func.clone(parameters=(Sum((arr_size, 7)), -3))\n\n        # Increment stack size\n        stack_size = simplify(Sum((stack_size, arr_size)))",
            "        arr_words = ishift_func.clone(parameters=(Sum((arr_size, 7)), -3))\n\n        # Increment stack size\n        stack_size = simplify(Sum((stack_size, arr_words)))",
